@@ -15,6 +15,8 @@ package creds
 // an iteration (it returns an error and no buffer).
 //@ func (Creds).buffer
 //@   props C17
+//@   monitor credbuf[0] := result0
+//@   monitor credbufok[0] := result1 == nil
 //@   ensures result1 != nil ==> result0 == nil
 //@   ensures result1 == nil ==> result0 != nil
 //@   at loop 1 entry assert wbytes(buf) == scat("capability[]=authtype\n", "capability[]=state\n")
@@ -22,3 +24,31 @@ package creds
 //@   loop 1 iter wbytes(buf) == iter2(wbytes(buf))
 //@   loop 2 iter !str_contains(item, "\n") && !str_contains(item, "\x00") && (protectProtocol ==> !str_contains(item, "\r"))
 //@   loop 2 iter wbytes(buf) == scat(scat(scat(scat(iter(wbytes(buf)), k), "="), item), "\n")
+
+// C17: `git credential <subcommand>` is only ever started with, as its
+// standard input, the buffer that (Creds).buffer built for these very
+// credentials and accepted (no error) - an input with an unsafe value never
+// reaches the subprocess.
+//@ func (*commandCredentialHelper).exec
+//@   props C17
+//@   requires @inv h != nil
+//@   at call (*subprocess.Cmd).Start:1 assert credbufok(0) && vref(cmd.Stdin) == credbuf(0) && credbuf(0) != 0
+//@   at call subprocess.ExecCommand:1 assert arg0__ == "git" && len(arg1__) == 2 && arg1__[0] == "credential" && arg1__[1] == subcommand
+//@   at call (creds.Creds).buffer:1 assert arg0__ == input && arg1__ == h.protectProtocol
+//@ func github.com/git-lfs/git-lfs/v3/subprocess.ExecCommand
+//@   assumed
+//@   props C17
+//@   modifies fresh
+//@   ensures result1 == nil ==> result0 != nil && result0.Cmd != nil && isfresh(result0)
+//@ func (*github.com/git-lfs/git-lfs/v3/subprocess.Cmd).Start
+//@   assumed
+//@   props C17
+//@   modifies fresh
+//@ func (*github.com/git-lfs/git-lfs/v3/subprocess.Cmd).Wait
+//@   assumed
+//@   props C17
+//@   modifies fresh
+//@ func FirstEntryForKey
+//@   assumed
+//@   props C17
+//@   noeffect
